@@ -22,7 +22,7 @@ theorem splitOnceC_some {d : Char} : ∀ {s a b : Str}, splitOnceC d s = some (a
       | none => simp [hr] at h
       | some ab =>
         obtain ⟨a', b'⟩ := ab
-        simp only [hr, Option.some.injEq, Prod.mk.injEq] at h
+        simp only [hr] at h
         obtain ⟨rfl, rfl⟩ := h
         obtain ⟨h1, h2⟩ := splitOnceC_some hr
         simp only [beq_iff_eq] at hc
@@ -87,7 +87,7 @@ theorem stripSuffix_iff {pat s b : Str} : stripSuffix pat s = some b ↔ s = b +
   · rintro rfl
     have hp : pat.reverse.isPrefixOf (b ++ pat).reverse = true := by
       rw [List.isPrefixOf_iff_prefix, List.reverse_prefix]; exact List.suffix_append b pat
-    simp [hp]
+    simp
 
 theorem stripSuffix_none_iff {pat s : Str} : stripSuffix pat s = none ↔ ¬ ∃ b, s = b ++ pat := by
   constructor
@@ -587,12 +587,180 @@ theorem insert_displaced_get {α : Type} (k : Str) (v v' : α) : ∀ (m : List (
     by_cases h1 : (k' == k) = true
     · simp only [h1, if_true, Option.some.injEq] at h
       simp [AMap.get?, h1, h]
-    · simp only [h1, if_false] at h
+    · simp only [h1] at h
       by_cases h2 : AMap.strLt k k' = true
       · simp [h2] at h
-      · simp only [h2, if_false] at h
+      · simp only [h2] at h
         have h1' : (k' == k) = false := by simpa using h1
         simp only [AMap.get?, h1', Bool.false_eq_true, if_false]
         exact insert_displaced_get k v v' rest h
+
+
+/-! ### association-list facts -/
+theorem insert'_nil {α : Type} (k : Str) (v : α) : AMap.insert' k v [] = [(k, v)] := rfl
+theorem insert'_same {α : Type} (k k' : Str) (v v' : α) (rest : List (Str × α)) (h : (k' == k) = true) :
+    AMap.insert' k v ((k', v') :: rest) = (k, v) :: rest := by simp [AMap.insert', AMap.insert, h]
+theorem insert'_before {α : Type} (k k' : Str) (v v' : α) (rest : List (Str × α)) (h : (k' == k) = false)
+    (h2 : AMap.strLt k k' = true) :
+    AMap.insert' k v ((k', v') :: rest) = (k, v) :: (k', v') :: rest := by simp [AMap.insert', AMap.insert, h, h2]
+theorem insert'_after {α : Type} (k k' : Str) (v v' : α) (rest : List (Str × α)) (h : (k' == k) = false)
+    (h2 : AMap.strLt k k' = false) :
+    AMap.insert' k v ((k', v') :: rest) = (k', v') :: AMap.insert' k v rest := by
+  simp [AMap.insert', AMap.insert, h, h2]
+
+theorem insert'_cases {α : Type} (k k' : Str) (v v' : α) (rest : List (Str × α)) :
+    ((k' == k) = true ∧ AMap.insert' k v ((k', v') :: rest) = (k, v) :: rest) ∨
+    ((k' == k) = false ∧ AMap.insert' k v ((k', v') :: rest) = (k, v) :: (k', v') :: rest) ∨
+    ((k' == k) = false ∧ AMap.insert' k v ((k', v') :: rest) = (k', v') :: AMap.insert' k v rest) := by
+  cases h : k' == k
+  · cases h2 : AMap.strLt k k'
+    · exact Or.inr (Or.inr ⟨rfl, insert'_after k k' v v' rest h h2⟩)
+    · exact Or.inr (Or.inl ⟨rfl, insert'_before k k' v v' rest h h2⟩)
+  · exact Or.inl ⟨rfl, insert'_same k k' v v' rest h⟩
+
+theorem mem_insert' {α : Type} (k : Str) (v : α) : ∀ (m : List (Str × α)) (x : Str × α),
+    x ∈ AMap.insert' k v m → x = (k, v) ∨ x ∈ m
+  | [], x, h => by rw [insert'_nil] at h; simpa using h
+  | (k', v') :: rest, x, h => by
+    rcases insert'_cases k k' v v' rest with ⟨_, e⟩ | ⟨_, e⟩ | ⟨_, e⟩ <;> rw [e] at h
+    · rcases List.mem_cons.mp h with h | h
+      · exact Or.inl h
+      · exact Or.inr (List.mem_cons_of_mem _ h)
+    · rcases List.mem_cons.mp h with h | h
+      · exact Or.inl h
+      · exact Or.inr h
+    · rcases List.mem_cons.mp h with h | h
+      · exact Or.inr (by rw [h]; exact List.mem_cons_self)
+      · rcases mem_insert' k v rest x h with h | h
+        · exact Or.inl h
+        · exact Or.inr (List.mem_cons_of_mem _ h)
+
+theorem get?_mem {α : Type} (k : Str) (v : α) : ∀ (m : List (Str × α)), AMap.get? k m = some v → (k, v) ∈ m
+  | [], h => by simp [AMap.get?] at h
+  | (k', v') :: rest, h => by
+    simp only [AMap.get?] at h
+    by_cases h1 : (k' == k) = true
+    · simp only [h1, if_true, Option.some.injEq] at h
+      simp only [beq_iff_eq] at h1
+      simp [h1, h]
+    · simp only [h1] at h
+      exact List.mem_cons_of_mem _ (get?_mem k v rest h)
+
+theorem get?_cons {α : Type} (k k' : Str) (v' : α) (rest : List (Str × α)) :
+    AMap.get? k ((k', v') :: rest) = if k' == k then some v' else AMap.get? k rest := rfl
+
+theorem get?_insert'_self {α : Type} (k : Str) (v : α) : ∀ (m : List (Str × α)),
+    AMap.get? k (AMap.insert' k v m) = some v
+  | [] => by simp [insert'_nil, get?_cons]
+  | (k', v') :: rest => by
+    rcases insert'_cases k k' v v' rest with ⟨_, e⟩ | ⟨_, e⟩ | ⟨hk, e⟩ <;> rw [e]
+    · simp [get?_cons]
+    · simp [get?_cons]
+    · rw [get?_cons, hk]; exact get?_insert'_self k v rest
+
+theorem get?_insert'_other {α : Type} (k k0 : Str) (v : α) (hne : k0 ≠ k) : ∀ (m : List (Str × α)),
+    AMap.get? k0 (AMap.insert' k v m) = AMap.get? k0 m
+  | [] => by
+    have : (k == k0) = false := by simpa using fun e => hne e.symm
+    simp [insert'_nil, get?_cons, this, AMap.get?]
+  | (k', v') :: rest => by
+    have hk : (k == k0) = false := by simpa using fun e => hne e.symm
+    rcases insert'_cases k k' v v' rest with ⟨h1, e⟩ | ⟨_, e⟩ | ⟨_, e⟩ <;> rw [e]
+    · have : (k' == k0) = false := by
+        simp only [beq_iff_eq] at h1; subst h1; exact hk
+      simp [get?_cons, hk, this]
+    · simp [get?_cons, hk]
+    · rw [get?_cons, get?_cons, get?_insert'_other k k0 v hne rest]
+
+/-! ### the first loop: nested locales, and the invariant of the candidate groups -/
+theorem loop_subkeys (orc : Oracle) (locale : Str) (fuel : Nat) (path : KeyPath) (k : Str) (sub : Loc)
+    (rest acc : List (Str × PV)) (groups : List (Str × Cands)) (ws : List Warning) :
+    mergePlurals.loop orc locale fuel path ((k, .subkeys (some sub)) :: rest) acc groups ws =
+      match mergePlurals orc locale fuel (pushKey path k) sub with
+      | .ok (sub', w) =>
+        mergePlurals.loop orc locale fuel path rest (AMap.insert' k (.subkeys (some sub')) acc) groups (ws ++ w)
+      | .err e => .err e
+      | .panic p => .panic p := by
+  have e : mergePlurals.loop orc locale fuel path ((k, .subkeys (some sub)) :: rest) acc groups ws =
+      match (match mergePlurals orc locale fuel (pushKey path k) sub with
+            | .ok (sub', w) => (Res.ok (PV.subkeys (some sub'), w) : Res (PV × List Warning))
+            | .err e => .err e
+            | .panic p => .panic p) with
+      | .err e => .err e
+      | .panic p => .panic p
+      | .ok (v, w) =>
+        match isPossiblePlural k v with
+        | some (base, rule, form) =>
+          if (candInsert form (k, rule, v) ((AMap.get? base groups).getD [])).2 then .err "ConflictingPluralRuleType"
+          else mergePlurals.loop orc locale fuel path rest acc
+            (AMap.insert' base (candInsert form (k, rule, v) ((AMap.get? base groups).getD [])).1 groups) (ws ++ w)
+        | none => mergePlurals.loop orc locale fuel path rest (AMap.insert' k v acc) groups (ws ++ w) := rfl
+  rw [e]
+  cases mergePlurals orc locale fuel (pushKey path k) sub with
+  | ok r => obtain ⟨sub', w⟩ := r; rfl
+  | err e => rfl
+  | panic p => rfl
+
+/-- every candidate group is sorted by form and made of keys that parse to that base/rule/form and
+    satisfy `P` -/
+def GroupsInv (P : Str → PV → Prop) (groups : List (Str × Cands)) : Prop :=
+  ∀ base cs, (base, cs) ∈ groups → FormsSorted cs ∧
+    ∀ x ∈ cs, isPossiblePlural x.2.1 x.2.2.2 = some (base, x.2.2.1, x.1) ∧ P x.2.1 x.2.2.2
+
+theorem groupsInv_cur {P : Str → PV → Prop} {groups : List (Str × Cands)} (h : GroupsInv P groups) (base : Str) :
+    FormsSorted ((AMap.get? base groups).getD []) ∧
+    ∀ x ∈ (AMap.get? base groups).getD [], isPossiblePlural x.2.1 x.2.2.2 = some (base, x.2.2.1, x.1) ∧ P x.2.1 x.2.2.2 := by
+  cases hg : AMap.get? base groups with
+  | none => simp [FormsSorted]
+  | some cs => exact h base cs (get?_mem base cs groups hg)
+
+theorem loop_inv (orc : Oracle) (locale : Str) (fuel : Nat) (path : KeyPath) (P : Str → PV → Prop) :
+    ∀ (keys acc : List (Str × PV)) (groups : List (Str × Cands)) (ws : List Warning)
+      (acc' : List (Str × PV)) (groups' : List (Str × Cands)) (ws' : List Warning),
+      (∀ kv ∈ keys, P kv.1 kv.2) → GroupsInv P groups →
+      mergePlurals.loop orc locale fuel path keys acc groups ws = .ok (acc', groups', ws') →
+      GroupsInv P groups'
+  | [], acc, groups, ws, acc', groups', ws', _, hinv, h => by
+    rw [loop_nil] at h
+    injection h with h
+    simp only [Prod.mk.injEq] at h
+    obtain ⟨_, rfl, _⟩ := h
+    exact hinv
+  | (k, v) :: rest, acc, groups, ws, acc', groups', ws', hP, hinv, h => by
+    have hP' : ∀ kv ∈ rest, P kv.1 kv.2 := fun kv hkv => hP kv (List.mem_cons_of_mem _ hkv)
+    by_cases hsub : ∃ sub, v = .subkeys (some sub)
+    · obtain ⟨sub, rfl⟩ := hsub
+      rw [loop_subkeys] at h
+      cases hm : mergePlurals orc locale fuel (pushKey path k) sub with
+      | ok r =>
+        obtain ⟨sub', w⟩ := r
+        rw [hm] at h
+        exact loop_inv orc locale fuel path P rest _ groups _ acc' groups' ws' hP' hinv h
+      | err e => rw [hm] at h; cases h
+      | panic p => rw [hm] at h; cases h
+    · have hv : ∀ sub, v ≠ .subkeys (some sub) := fun sub e => hsub ⟨sub, e⟩
+      cases hp : isPossiblePlural k v with
+      | none =>
+        rw [loop_ordinary _ _ _ _ _ _ _ _ _ _ hv hp] at h
+        exact loop_inv orc locale fuel path P rest _ groups _ acc' groups' ws' hP' hinv h
+      | some r =>
+        obtain ⟨base, rule, form⟩ := r
+        rw [loop_candidate _ _ _ _ _ _ _ _ _ _ _ _ _ hp] at h
+        cases hd : (candInsert form (k, rule, v) ((AMap.get? base groups).getD [])).2
+        · rw [hd] at h
+          simp only [Bool.false_eq_true, if_false] at h
+          refine loop_inv orc locale fuel path P rest _ _ _ acc' groups' ws' hP' ?_ h
+          intro b cs hmem
+          rcases mem_insert' _ _ _ _ hmem with e | hmem
+          · simp only [Prod.mk.injEq] at e
+            obtain ⟨rfl, rfl⟩ := e
+            obtain ⟨hs, hall⟩ := groupsInv_cur hinv b
+            obtain ⟨s1, _, s3, _⟩ := candInsert_spec form (k, rule, v) _ hs
+            refine ⟨s1, fun x hx => ?_⟩
+            rcases (s3 x).mp hx with rfl | ⟨hx, _⟩
+            · exact ⟨hp, hP (k, v) List.mem_cons_self⟩
+            · exact hall x hx
+          · exact hinv b cs hmem
+        · rw [hd] at h; simp at h
 
 end I18nVerif.Plurals
